@@ -61,6 +61,7 @@ class Unit:
     assumptions: list = dataclasses.field(default_factory=list)
     trusted: list = dataclasses.field(default_factory=list)
     harness_crate: str = ""
+    quick_cap: int = 0              # per-unit override of the quick-tier cap (0 = default)
     group: str = ""                 # units with the same group share ONE scratch workspace and ONE build (same crate, union of injections/features/patches)
     kind: str = "kani"              # "kani" | "verus" (spec-level lemma files checked by `verus <file>`; harness.name = file under /verif)
     pre_build: object = None        # callable(ws: Path): unit-specific mechanical generation step after injection
